@@ -65,6 +65,14 @@ INFO = {
  'C20r3': ('Mdd::as_graphviz hoists let show_deleted = config.show_deleted && !self.is_exact() (the trait method, which is also true for an exact best path)', 'a relaxed diagram with a squashed layer AND an exact best path, show_deleted = true: deleted nodes vanish, clusters list undeclared ids'),
  'C16xr3': ('talentsched example: get_present counts the maybe_scenes of a merged state as scenes still to be shot', 'a merged state holding an actor who has left in some of the merged states only: three actors on three scenes (triangle), width 1 or 2'),
  'C16zr3': ('srflp example: transition_cost counts the free slots as for_each_in_domain does (n - depth): one cut too many on the arcs leaving a merged node', '>= 5 departments, a dense flow matrix, a merged node (default width or -w 1)'),
+ 'C03r4': ('parallel process_one_node: when the bound re-read between the restricted and the relaxed compilation makes the node irrelevant, the whole fringe is purged (copied from get_workload, but two critical sections after the pop)', '2 workers, 3 context switches: B pops M (larger ub), A pops N; while A restricts N, B raises the incumbent past ub(N) and enqueues K (which holds the optimum); A resumes and purges K'),
+ 'C04r4': ('the ub <= best_lb shortcut moved from process_one_node into the worker loop as a continue which skips notify_node_finished: ongoing is never given back', '2 workers, 3 context switches: the incumbent must improve between the pop of a node and the same worker\'s next critical section; the hang only shows once the fringe is empty'),
+ 'C09r4': ('Mdd::_compute_local_bounds guard lel < layers.len() replaced by !self.is_exact() (the trait method, also true for an exact best path): no local bounds for such diagrams, cut-set thetas saturate to MAX', 'a relaxed diagram with merges AND an exact best path whose cut-set state is reached again with a larger value from another sub-problem processed later'),
+ 'C10r4': ('dominance-pruned nodes are flagged deleted, so their threshold never reaches their parents (rediscovery of the first C10 seed)', 'dominance rule with value AND SimpleCache, a state reached again later with a higher value'),
+ 'C15r4': ('Pooled::_drain_cutset: after handing out the children of the root (root in its own cut-set) `continue` became `break`: the cut-set nodes which follow are dropped although the cache was told they are pending', 'root in the cut-set (long arcs), other cut-set nodes after it, a caching pooled solver, the optimum under a dropped node'),
+ 'C16pr4': ('max2sat example: precompute_estimate reads weight(t(vj), f(vi)) instead of weight(t(vi), f(vj)) for the both-false entry of the pairwise bound table', '>= 4 variables, two or more clauses on one variable pair with (x or y) strictly the lightest (in practice a NEGATIVE weight), widths 1-3'),
+ 'C16qr4': ('golomb example: GolombRelax::merge keeps the MAX last mark instead of the min (no relaxation)', '9 or 10 marks at width 1 only (where the width-1 restricted diagram misses the optimum)'),
+ 'C16sr4': ('alp example: min_separation_to[j] is the ROW minimum of the separation matrix instead of the column minimum', 'an ASYMMETRIC separation matrix (all shipped files are symmetric), 4 aircraft, binding separations, one particular width'),
  'C18r3': ('SimpleDominanceChecker::is_dominated_or_insert checks under get_mut + retain, drops the guard, then pushes through entry().or_default()', 'two threads recording comparable states a < b on one key, both past retain before either push: store {a, b}; only the THRESHOLD of later dominated verdicts is wrong'),
 }
 HISTORY = {
@@ -85,6 +93,11 @@ HISTORY = {
  'C16zr3': 'first run: MISSED (the scope stopped at 4 departments with flows {0,1,2}: merged states need >= 4 departments and their cut values only matter for dense matrices) -> 5 departments, lengths {1,2} (non decreasing in the quick tier), flows {1,2}; while looking for a seed in lcs the sub-agent found the UNCHANGED lcs example wrong: genuine defect D16',
  'C14b': 'first run: caught by C03 only; C14 itself since the explicit-state search (all interleavings) runs with a primal',
  'C05r3': 'needs two pre-emptions with both workers cut off: caught by the deeper bound and by the explicit-state search',
+ 'C03r4': 'first run: MISSED by C03, C02, C04 (the pre-emption bound of the quick tier was 2 for two workers, and the instances of the explicit-state search are the smallest ones) -> deeper bound (3; thorough 4) on many instances under the cheapest configuration: TM-B4#1036 is the first instance with the needed shape',
+ 'C16qr4': 'first run: MISSED (the scope stopped at 6 / 7 marks) -> 2..8 (9) marks at every width, 9 (10) marks at width 1',
+ 'C16sr4': 'MISSED by the quick tier (scope: separations over {1,2}, at most 3 aircraft); the thorough tier got a block (4 aircraft, 2 classes, 1 runway, asymmetric separations over {1,4}) which reports it; a reduced block for the quick tier did not',
+ 'C16pr4': 'MISSED by both tiers: the max2sat scope has at most 3 variables and positive weights; the change needs 4 variables and (in practice) a negative weight -- 4 variables x 4 clauses x signed weights is 1.9e7 runs, beyond the tiers; recorded as a limit of the scope',
+ 'C19': 'caught by C11 (container level) in every campaign; C19 itself has not reported it: the out-of-order pops it causes did not change the reported upper bound at any cut-off index of the enumerated knapsack families',
  'C06b': 'first run: caught by C15 and C01, MISSED by C06 under load (the irrelevance plans came last and the cap cut them) -> plans are now run cheapest first, the irrelevance families are reached in every quick run',
 }
 results = {}
